@@ -1,6 +1,6 @@
 #!/usr/bin/env python3
 """Turns Gold source text into the Coq term (Tree.node) of the tree the REAL parser builds for it:
-   text -> vharness parsedump -> tree dump (harness/src/treedump.rs format) -> Gallina.
+   text -> vharness unusedvar (its first field) -> tree dump (harness/src/treedump.rs format) -> Gallina.
    usage: tools/dump2coq.py NAME 'proc p\\n var x : int4\\nendproc'  [--split]
    --split emits one Definition per child of the root (NAME_0, NAME_1, ...) and NAME := root over them,
    so that the children can be re-arranged in Coq.  Needs the generated Gen/AstKinds.v and Gen/Tokens.v."""
@@ -76,8 +76,8 @@ def main():
     name, text = args[0], args[1].replace("\\n", "\n")
     hb = os.path.join(VERIF, "harness/target/debug/vharness")
     line = ".".join(str(ord(c)) for c in text)
-    out = subprocess.run([hb, "parsedump"], input=line + "\n", capture_output=True, text=True).stdout.strip()
-    dump = out.split("|")[1]
+    out = subprocess.run([hb, "unusedvar"], input=line + "\n", capture_output=True, text=True).stdout.strip()
+    dump = out.split("#")[0]
     tree, _ = parse(dump)
     print("(* real parser, text: %s *)" % repr(text).replace("*)", "* )"))
     if "--split" in sys.argv:
